@@ -53,7 +53,22 @@ def mesh_copy_transform_revalidation(v):
     )
 
 
+def explicit_filter_overrides_validity(v):
+    """F31: an explicitly passed filter_field replaces the default validity filter
+    instead of being combined with it, so an invalid cell whose filter value is
+    non-zero is drawn.  The C20 workload isolates exactly these cells (invalid,
+    explicit filter given and clearly non-zero there) in a monitor of their own;
+    invalid cells under the default filter and cells with a zero filter value are
+    judged by the image / arrow monitors and are never classified here."""
+    i = _info(v)
+    return (
+        v.get("monitor") == "C20.invalid_hidden_under_filter"
+        and i.get("filter") in ("same", "other")
+    )
+
+
 PREDICATES = {
+    "explicit_filter_overrides_validity": explicit_filter_overrides_validity,
     "mesh_copy_transform_revalidation": mesh_copy_transform_revalidation,
     "vtk_txt_subregions_precision": vtk_txt_subregions_precision,
 }
